@@ -55,6 +55,7 @@ func (l *URIHdrsLst) More() bool {
 // Init initializes the parsed headers list with a headers place-holder
 // array.
 func (l *URIHdrsLst) Init(hbuf []URIHdr) {
+	l.Reset() // a used list must restart from scratch (counters, state)
 	l.Hdrs = hbuf
 }
 
